@@ -361,13 +361,160 @@ class Fn:
         return text, ([t for _, t in params], rett)
 
 
+class TreeFn:
+    """Second translation scheme, for straight-line decision code over optional values
+    (yarl/_parse.py: make_netloc).  The body is read as a decision tree: every [if] is
+    translated with the rest of the function as the continuation of both branches (a
+    [return] ends a path), so that a test can NARROW the type of the variable it tests -
+    [x is None] / [x is not None] on an Optional turns x into its payload in the other branch,
+    truthiness of an Optional[str] turns it into a non-empty str in the true branch.
+    Types: str, bool, int, Optional[str] ([Union[str, None]]), Optional[int].  Statements:
+    [x = e], [if/elif/else], [return e], [return a if c else b].  Conditions: [and], [or],
+    [not], [x is None], [x is not None], a name (truthiness of str / Optional[str] / bool).
+    Expressions: names, str literals, f-strings over str and int fields ({n} of an int is its
+    decimal text, str_of_N), calls of the listed module-level callables (here QUOTER, passed
+    in as the parameter q).  Parameter defaults and an [@lru_cache] decorator are accepted and
+    ignored (a cache over a pure function is the function: C08).  Anything else fails closed."""
+
+    COQ = {"str": "str", "bool": "bool", "int": "N", "optstr": "option str", "optint": "option N"}
+
+    def __init__(self, callables):
+        self.callables = callables       # python name -> coq parameter name (str -> str)
+
+    def ann(self, node):
+        t = ast.unparse(node).replace(" ", "")
+        m = {"str": "str", "bool": "bool", "int": "int", "Union[str,None]": "optstr", "Optional[str]": "optstr",
+             "Union[int,None]": "optint", "Optional[int]": "optint"}
+        if t in m:
+            return m[t]
+        raise Untranslatable("type annotation " + t)
+
+    def expr(self, e, env):
+        if isinstance(e, ast.Name):
+            if e.id not in env:
+                raise Untranslatable("unknown name " + e.id)
+            return e.id, env[e.id]
+        if isinstance(e, ast.Constant) and isinstance(e.value, str):
+            return lit(e.value), "str"
+        if isinstance(e, ast.JoinedStr):
+            parts = []
+            for v in e.values:
+                if isinstance(v, ast.Constant):
+                    parts.append(lit(v.value))
+                elif isinstance(v, ast.FormattedValue) and v.conversion == -1 and v.format_spec is None:
+                    t, tt = self.expr(v.value, env)
+                    if tt == "str":
+                        parts.append(t)
+                    elif tt == "int":
+                        parts.append(f"str_of_N {t}")
+                    else:
+                        raise Untranslatable("f-string field of type " + tt + ": " + ast.unparse(e))
+                else:
+                    raise Untranslatable("f-string " + ast.unparse(e))
+            return "(" + " ++ ".join(parts or ["[]"]) + ")", "str"
+        if isinstance(e, ast.Call) and isinstance(e.func, ast.Name) and e.func.id in self.callables \
+                and len(e.args) == 1 and not e.keywords:
+            a, ta = self.expr(e.args[0], env)
+            if ta != "str":
+                raise Untranslatable("argument of " + e.func.id + " of type " + ta)
+            return f"({self.callables[e.func.id]} {a})", "str"
+        raise Untranslatable("expression " + ast.unparse(e))
+
+    def branch(self, test, env, then_k, else_k):
+        if isinstance(test, ast.BoolOp):
+            first, rest = test.values[0], test.values[1:]
+            more = rest[0] if len(rest) == 1 else ast.BoolOp(op=test.op, values=rest)
+            if isinstance(test.op, ast.And):
+                return self.branch(first, env, lambda e1: self.branch(more, e1, then_k, else_k), else_k)
+            return self.branch(first, env, then_k, lambda e1: self.branch(more, e1, then_k, else_k))
+        if isinstance(test, ast.UnaryOp) and isinstance(test.op, ast.Not):
+            return self.branch(test.operand, env, else_k, then_k)
+        if isinstance(test, ast.Compare) and len(test.ops) == 1 and isinstance(test.left, ast.Name) \
+                and isinstance(test.comparators[0], ast.Constant) and test.comparators[0].value is None \
+                and isinstance(test.ops[0], (ast.Is, ast.IsNot)):
+            x = test.left.id
+            t = env.get(x)
+            if t in ("str", "int"):
+                # already narrowed on this path (or never optional): the test is statically decided
+                return else_k(env) if isinstance(test.ops[0], ast.Is) else then_k(env)
+            if t not in ("optstr", "optint"):
+                raise Untranslatable("None test of " + x + " of type " + str(t))
+            some_env = dict(env)
+            some_env[x] = "str" if t == "optstr" else "int"
+            none_k, some_k = (then_k, else_k) if isinstance(test.ops[0], ast.Is) else (else_k, then_k)
+            return f"(match {x} with None => {none_k(env)} | Some {x} => {some_k(some_env)} end)"
+        if isinstance(test, ast.Name):
+            x = test.id
+            t = env.get(x)
+            if t == "optstr":
+                e1 = dict(env)
+                e1[x] = "str"
+                return f"(match {x} with Some ((_ :: _) as {x}) => {then_k(e1)} | _ => {else_k(env)} end)"
+            if t == "str":
+                return f"(match {x} with _ :: _ => {then_k(env)} | [] => {else_k(env)} end)"
+            if t == "bool":
+                return f"(if {x} then {then_k(env)} else {else_k(env)})"
+            raise Untranslatable("truthiness of " + x + " of type " + str(t))
+        raise Untranslatable("condition " + ast.unparse(test))
+
+    def stmts(self, body, env):
+        if not body:
+            raise Untranslatable("a path falls off the end of the function")
+        st, rest = body[0], body[1:]
+        if isinstance(st, ast.Expr) and isinstance(st.value, ast.Constant) and isinstance(st.value.value, str):
+            return self.stmts(rest, env)
+        if isinstance(st, ast.Return) and st.value is not None:
+            if isinstance(st.value, ast.IfExp):
+                v = st.value
+                return self.branch(v.test, env, lambda e1: self.ret(v.body, e1), lambda e1: self.ret(v.orelse, e1))
+            return self.ret(st.value, env)
+        if isinstance(st, ast.Assign) and len(st.targets) == 1 and isinstance(st.targets[0], ast.Name):
+            v, tv = self.expr(st.value, env)
+            e1 = dict(env)
+            e1[st.targets[0].id] = tv
+            return f"(let {st.targets[0].id} : {self.COQ[tv]} := {v} in {self.stmts(rest, e1)})"
+        if isinstance(st, ast.If):
+            return self.branch(st.test, env, lambda e1: self.stmts(list(st.body) + rest, e1),
+                               lambda e1: self.stmts(list(st.orelse) + rest, e1))
+        raise Untranslatable("statement " + ast.unparse(st)[:80])
+
+    def ret(self, e, env):
+        v, tv = self.expr(e, env)
+        if tv != self.rett:
+            raise Untranslatable("return of type " + tv)
+        return v
+
+    def translate(self, fd):
+        if fd.args.vararg or fd.args.kwarg or fd.args.kwonlyargs or fd.args.posonlyargs:
+            raise Untranslatable("signature of " + fd.name)
+        for d in fd.decorator_list:
+            if ast.unparse(d).split("(")[0] not in ("lru_cache", "functools.lru_cache"):
+                raise Untranslatable("decorator " + ast.unparse(d))
+        for d in fd.args.defaults:
+            if not (isinstance(d, ast.Constant) and d.value in (None, True, False)):
+                raise Untranslatable("default value " + ast.unparse(d))
+        env, params = {}, []
+        for a in fd.args.args:
+            if a.annotation is None:
+                raise Untranslatable("parameter without annotation: " + a.arg)
+            t = self.ann(a.annotation)
+            env[a.arg] = t
+            params.append((a.arg, t))
+        self.rett = self.ann(fd.returns)
+        body = self.stmts(list(fd.body), env)
+        ps = " ".join(f"({c} : str -> str)" for c in self.callables.values())
+        ps += " " + " ".join(f"({n} : {self.COQ[t]})" for n, t in params)
+        return f"Definition gen_{fd.name} {ps} : {self.COQ[self.rett]} :=\n  {body}.", ([t for _, t in params], self.rett)
+
+
 SOURCES = [
     # (source file, output module, header imports, tables usable in "x in TABLE", functions with stub signatures)
     ("_path.py", "PathGen", "From Yarl Require Export Base.PyStr.", (),
      [("normalize_path_segments", "(segments : list str) : list str", "[]"),
       ("normalize_path", "(path : str) : str", "[]")]),
     ("_parse.py", "ParseGen", "From Yarl Require Export Base.PyStr Generated.Tables.", ("USES_AUTHORITY",),
-     [("unsplit_result", "(scheme netloc url query fragment : str) : str", "[]")]),
+     [("unsplit_result", "(scheme netloc url query fragment : str) : str", "[]"),
+      ("make_netloc", "(q : str -> str) (user password host : option str) (port : option N) (encode : bool) : str", "[]", {"QUOTER": "q"})]),
 ]
 
 
@@ -383,11 +530,14 @@ def generate_one(repo, fname, header, tables, wanted):
         fds = {}
         errors.append("syntax error: " + str(e))
     known = {}
-    for name, sig, stub in wanted:
+    for name, sig, stub, *tree in wanted:
         try:
             if name not in fds:
                 raise Untranslatable("function " + name + " not found")
-            text, ty = Fn(known, tables).translate(fds[name])
+            if tree:
+                text, ty = TreeFn(tree[0]).translate(fds[name])
+            else:
+                text, ty = Fn(known, tables).translate(fds[name])
             known[name] = ty
             out.append(text)
         except Untranslatable as e:
